@@ -157,6 +157,78 @@ def _site_task(args):
     return n, vs
 
 
+DEEP = 600         # nesting depth json.loads / json.dumps still handle; deeper than any recursive helper survives
+
+
+MODERATE = 150     # a depth at which the whole round trip works on the tree as it is (see known finding K5)
+
+
+def deep_values(depth):
+    a = 1
+    for _ in range(depth):
+        a = [a]
+    b = {"leaf": True}
+    for _ in range(depth):
+        b = {"n": b}
+    return [("array-nest-%d" % depth, a), ("object-nest-%d" % depth, b)]
+
+
+def deep_payload_pass(mm):
+    """Very deep JSON at the positions where any JSON is valid (properties typed LSPAny / LSPObject / LSPArray): the
+    value must come back unchanged.  Judged by plain equality (the reference model's recursive functions are not used
+    on these values)."""
+    from ..mm import ANY_ALIASES
+    from ..vse import VSE
+    from ..explore import root_class, jround
+    vse = VSE(mm)
+    conv = impl.converter()
+    n = 0
+    vs = []
+    for sname in mm.structures:
+        cls = root_class(sname)
+        if cls is None:
+            continue
+        for p in mm.flatten(sname):
+            t = p["type"]
+            wrap = None
+            if t["kind"] == "reference" and t["name"] in ANY_ALIASES:
+                wrap = lambda v: v                                   # noqa: E731
+            elif t["kind"] == "array" and t["element"]["kind"] == "reference" and t["element"]["name"] in ANY_ALIASES:
+                wrap = lambda v: [v]                                 # noqa: E731
+            if wrap is None:
+                continue
+            for label, v in deep_values(DEEP) + deep_values(MODERATE):
+                if t.get("name") == "LSPObject" and not isinstance(v, dict) or t.get("name") == "LSPArray" and not isinstance(v, list):
+                    continue
+                j = vse.minimal(ref(sname))
+                if not isinstance(j, dict):
+                    continue
+                j = dict(j)
+                j[p["name"]] = wrap(v)
+                n += 1
+                site = "%s.%s" % (sname, p["name"])
+                rp = {"engine": "VSE", "root": sname, "input": None, "deep": label, "property": p["name"]}
+                try:
+                    o = conv.structure(j, cls)
+                except Exception as e:  # noqa: BLE001
+                    vs.append(Violation(PROP, "deep-structure", site, "structure of %s with %s at %s raises %s: %s" % ((sname, label, p["name"]) + tuple(leaf_exc(e))), rp,
+                                        extra=leaf_exc(e)[0]))
+                    continue
+                try:
+                    u = jround(conv.unstructure(o, cls))
+                except RecursionError:
+                    vs.append(Violation(PROP, "deep-unstructure", site, "unstructure of %s with %s at %s raises RecursionError" % (sname, label, p["name"]), rp,
+                                        extra="%s:RecursionError" % label))
+                    continue
+                except Exception as e:  # noqa: BLE001
+                    vs.append(Violation(PROP, "deep-unstructure", site, "unstructure of %s with %s at %s raises %s: %s" % ((sname, label, p["name"]) + tuple(leaf_exc(e))), rp,
+                                        extra="%s:%s" % (label, leaf_exc(e)[0])))
+                    continue
+                if u.get(p["name"]) != j[p["name"]]:
+                    vs.append(Violation(PROP, "deep-roundtrip", site, "%s with %s at %s does not come back unchanged" % (sname, label, p["name"]), rp, extra=label))
+    return n, vs
+
+
 def run(ctx):
     mm = get_mm()
     res = Result()
@@ -187,13 +259,16 @@ def run(ctx):
     for p in sparts:
         res.merge_violations(p[1])
     c_evals += site_execs
+    deep_execs, deep_viols = deep_payload_pass(mm)
+    res.merge_violations(deep_viols)
+    c_evals += deep_execs
     capped = a1["capped"] + a2["capped"]
     res.coverage = {
         "states": a1["states"] + a2["states"],
         "transitions": a1["transitions"] + a2["transitions"],
         "traces_validated_against_impl": a1["evals"] + a2["evals"] + c_evals,
         "evaluations": a1["evals"] + a2["evals"] + c_evals,
-        "testdata_true_vectors_round_tripped": c_evals - site_execs, "testdata_vector_outcomes": c_outcomes, "union_site_shape_executions": site_execs,
+        "testdata_true_vectors_round_tripped": c_evals - site_execs - deep_execs, "testdata_vector_outcomes": c_outcomes, "union_site_shape_executions": site_execs, "deep_payload_executions": deep_execs,
         "distinct_nontrivial": a1["distinct_nt"] + a2["distinct_nt"],
         "rule": "every VSE derivation (deviation-bounded walk of the metamodel grammar) of every root, de-duplicated on "
                 "(root, canonical JSON); non-trivial = cost >= 1 or from the maximal base; plus every message the testdata plugin labels True and MM "
